@@ -6,17 +6,21 @@ int kit_decode_utf8_char(const unsigned char *s);
 KIT_C_END
 void harness(void) {
   sexp ctx = kit_ctx_full();
+#if PART == 1
   unsigned c = (unsigned) nondet_uword();
   __CPROVER_assume(c >= 0x80 && c <= 0x10FFFF && !(c >= 0xD800 && c <= 0xDFFF));
   unsigned char buf[5] = {0, 0, 0, 0, 0};
   int len = sexp_utf8_char_byte_count(c);
   sexp_utf8_encode_char(buf, len, c);
   KIT_ASSERT(kit_decode_utf8_char(buf) == (int)c, "the #\\x literal decoder inverts the UTF-8 encoder for every non-ASCII scalar value");
+#else
   /* hostile bytes: total, and never a value for an ill-formed prefix of the right length */
   unsigned char raw[5];
   for (int i = 0; i < 4; i++) raw[i] = nondet_uchar();
   raw[4] = 0;
   int r = kit_decode_utf8_char(raw);
   KIT_ASSERT(r >= -1 && r <= 0x1FFFFF, "decoder is total on arbitrary bytes");
+  if (r >= 0) KIT_ASSERT(raw[0] >= 0xC0 && (raw[1] >> 6) == 2, "a value is only produced for a lead byte followed by a continuation byte");
+#endif
   KIT_WITNESS();
 }
